@@ -149,6 +149,16 @@ def check_tree(data: dict, lab: Labels) -> None:
             relative = False
             ws = 0
             lab.tag("step-names-a-property-holding-a-node")
+        elif xp[0] == "byclass":
+            # every class that occurs in the tree is asked for by its own name (and by a base's name)
+            present = sorted({e.cls for e in nodes})
+            cn = present[xp[1] % len(present)]
+            mro = MRO_OF(cn)
+            steps = [{"field": None, "index": None, "cls": None},
+                     {"field": None, "index": None, "cls": mro[0] if xp[2] % 3 else mro[(xp[2] // 3) % len(mro)]}]
+            relative = False
+            ws = 0
+            lab.tag_if(cn in ("SlotLeaf", "LocalLeaf", "LocalBox", "Kids", "KwFirst"), "byclass-unusual-class")
         elif xp[0] == "subseq":
             target = nodes[xp[1] % len(nodes)]
             steps, relative = X.subsequence_path(chains[target.uid], MRO_OF, xp[2], xp[3], xp[4])
@@ -202,10 +212,11 @@ def st_case(ctx: Ctx):
     subseq = st.tuples(st.just("subseq"), st.integers(0, 60), st.integers(0, 255), st.integers(0, 255),
                        st.integers(0, 2**16)).map(list)
     proplink = st.tuples(st.just("proplink"), st.integers(0, 20), st.integers(0, 11)).map(list)
+    byclass = st.tuples(st.just("byclass"), st.integers(0, 40), st.integers(0, 30)).map(list)
     return st.fixed_dictionaries(
         {
             "tree": st.one_of(g.inner_tree(), g.inner_tree(), g.inner_tree(), g.tree(), g2.inner_tree()),
-            "xpaths": st.lists(st.one_of(raw, derived, derived, subseq, subseq, proplink), min_size=5, max_size=5),
+            "xpaths": st.lists(st.one_of(raw, derived, derived, subseq, subseq, proplink, byclass), min_size=5, max_size=5),
         }
     )
 
